@@ -512,3 +512,128 @@ def rule_G6(prog):
                        "after `%s` a path reaches the end of the iteration without testing `ops[%s].is_empty()` and removing it: a "
                        "zero-length op may stay in the script" % (t.get("src", ""), _fmt_idx(idx or {})), file=fn.file, line=t["line"])
     return r
+
+
+# ------------------------------------------------------------------ G7: only an Equal op absorbs equal items
+def _tag_evidence(prog, m, idx, bb):
+    """Is the call block `bb` dominated by the Equal edge of a test of the tag of ops[idx]?  Recognised tests:
+    `if let Some(DiffTag::Equal) = <ops.get(idx) | idx.checked_sub(1).and_then(..)>.map(|x| x.tag())`, and a switch on
+    the discriminant of `ops[idx].tag()` (directly, through a local copy of the op, or as a component of a tuple)."""
+    tag_adt = prog.adts.get("types::DiffTag")
+    eq_idx = None
+    if tag_adt:
+        for i, v in enumerate(tag_adt["variants"]):
+            if v["name"] == "Equal":
+                eq_idx = str(i)
+    if eq_idx is None:
+        return False
+    import re as _re
+    # (c) a boolean flag: `let is_eq = match ops.get(j) { Some(op) => op.tag() == DiffTag::Equal, None => false }; if is_eq {..}`
+    for b2, blk in enumerate(m.blocks):
+        t = blk["term"]
+        if t["k"] != "switch" or t["values"] != ["0"] or t.get("discr_ty") != "bool":
+            continue
+        tgt = t["otherwise"]
+        if not (tgt == bb or m.dominates(tgt, bb)):
+            continue
+        d = t["discr"]
+        if d.get("k") not in ("copy", "move") or d["p"]["proj"]:
+            continue
+        l = d["p"]["l"]
+        for _ in range(3):
+            sd = m.single_def(l)
+            if sd and sd[2] == "assign" and sd[3]["k"] == "use" and sd[3]["op"].get("k") in ("copy", "move") and not sd[3]["op"]["p"]["proj"]:
+                l = sd[3]["op"]["p"]["l"]
+            else:
+                break
+        defs = m.defs().get(l, [])
+        good = bool(defs)
+        saw_eq = False
+        for bbd, i_, kind, payload in defs:
+            if kind == "assign":
+                rv = payload
+                if rv["k"] == "use" and rv["op"].get("k") == "const" and rv["op"].get("val") == "false":
+                    continue
+                good = False
+            else:
+                cal = m.callee(payload) or {}
+                src = payload.get("src", "") or ""
+                a0 = m.resolve_operand(payload["args"][0]) if payload["args"] else None
+                while isinstance(a0, tuple) and a0 and a0[0] in ("ref", "deref"):
+                    a0 = a0[1]
+                if "PartialEq" in cal.get("path", "") and cal.get("path", "").endswith("::eq") and \
+                        _re.search(r"==\s*(\w+::)*DiffTag::Equal\b|DiffTag::Equal\s*==", src) and \
+                        isinstance(a0, tuple) and a0 and a0[0] == "call" and a0[1] == "types::DiffOp::tag" and a0[2] and \
+                        _elem_index_of(m, a0[2][0]) == idx:
+                    saw_eq = True
+                    continue
+                good = False
+        if good and saw_eq:
+            return True
+    for b2, blk in enumerate(m.blocks):
+        t = blk["term"]
+        if t["k"] != "switch" or eq_idx not in t["values"]:
+            continue
+        tgt = t["targets"][t["values"].index(eq_idx)]
+        if not (tgt == bb or m.dominates(tgt, bb)):
+            continue
+        d = t["discr"]
+        if d.get("k") not in ("copy", "move") or d["p"]["proj"]:
+            continue
+        sd = m.single_def(d["p"]["l"])
+        if not sd or sd[2] != "assign" or sd[3]["k"] != "discr":
+            continue
+        place = sd[3]["p"]
+        term = m.resolve_place(place)
+        # peel `(X as Some).0` and tuple components down to the call that produced the tag
+        cur = term
+        for _ in range(6):
+            if isinstance(cur, tuple) and cur and cur[0] == "field" and isinstance(cur[1], tuple) and cur[1] and cur[1][0] == "downcast":
+                cur = cur[1][1]
+            elif isinstance(cur, tuple) and cur and cur[0] in ("deref", "ref"):
+                cur = cur[1]
+            elif isinstance(cur, tuple) and cur and cur[0] == "local":
+                e = m.expand(cur, depth=1)
+                if e == cur:
+                    break
+                cur = e
+            else:
+                break
+        if isinstance(cur, tuple) and cur and cur[0] == "call":
+            if cur[1].endswith("Option::<T>::map") and _elem_index_of(m, cur) == idx:
+                return True
+            if cur[1] == "types::DiffOp::tag" and cur[2] and _elem_index_of(m, cur[2][0]) == idx:
+                return True
+    return False
+
+
+def rule_G7(prog):
+    r = RuleResult("G7", "only an Equal op absorbs equal items: when compaction slides a change and hands the freed common "
+                         "prefix/suffix (a count from common_prefix_len/common_suffix_len) to a neighbour with grow_left/"
+                         "grow_right, that neighbour ops[j] has been tested to be an Equal op on the dominating branch")
+    from .guard import strip
+    for fn in prog.user_fns():
+        if not fn.mir:
+            continue
+        m = fn.mir
+        for bb, t in m.calls():
+            c = m.callee(t)
+            if not c or c["path"] not in ("types::DiffOp::grow_right", "types::DiffOp::grow_left"):
+                continue
+            common = False
+            for amt in _alternatives(m, m.resolve_operand(t["args"][1])):
+                a = strip(m.expand(amt, depth=4))
+                if isinstance(a, tuple) and a and a[0] == "call" and a[1].rsplit("::<", 1)[0].endswith(("common_prefix_len", "common_suffix_len")):
+                    common = True
+            if not common:
+                continue
+            r.instances += 1
+            idx = _elem_index_of(m, m.resolve_operand(t["args"][0]))
+            ok = idx is not None and _tag_evidence(prog, m, idx, bb)
+            r.ob(ok, "%s: `%s` line %d: ops[%s] tested to be Equal: %s" % (fn.path, t.get("src", ""), t["line"], _fmt_idx(idx or {}), ok))
+            if not ok:
+                r.find(fn.path, "absorb-untested:%s" % _fmt_idx(idx or {}),
+                       "`%s` hands equal items to ops[%s] without having tested that this op is an Equal op: a Delete/Insert/"
+                       "Replace neighbour would swallow items that are equal on both sides" % (t.get("src", ""), _fmt_idx(idx or {})),
+                       file=fn.file, line=t["line"])
+    return r
